@@ -33,6 +33,9 @@ def Walk.step {ga : Nat → Int} (w : Walk ga) (t : Tid) (a : Act) : Option (Wal
   | some s' => some ⟨w.sched ++ [(t, a)], s', by rw [run_append _ _ _ _ _ _ _ w.ok]; exact h⟩
   | none => none
 
+/-- batch id = thread * bidMul + sequence number (harness convention) -/
+def bidMul : Nat := 1000
+
 /-! ### events -/
 
 inductive Who | w | s (i : Nat)
@@ -52,10 +55,10 @@ inductive Ev
   | malloc (i : Nat)
   | signal (i : Nat)
   | ret (i b : Nat) (rc : Int) (snap : List Char)
-  | gacall (x : Who) (b k h : Nat)
+  | gacall (x : Who) (b k h : Nat) (argsok : Nat)   -- argsok: called with exactly the request's name/service/hints
   | garet (x : Who) (b k : Nat) (rc : Int)
   | notify (x : Who) (b : Nat) (snap : List Char)
-  | kill (x : Who) (target slot : Nat)
+  | kill (x : Who) (target slot bid : Nat)   -- bid: the batch that (thread, signal number) stands for
   | sigrecv (i b : Nat) (snap : List Char)
   | free
   | cwait
@@ -230,13 +233,13 @@ def feed {ga : Nat → Int} (v : V ga) : Ev → R ga
     if v.m.s.spc i ≠ .idle then .error "getaddrinfo_a returned in the middle of a submission"
     else if rc ≠ 0 then .error s!"getaddrinfo_a returned {rc}"
     else snapOk v b snap
-  | .gacall x b k h => do
+  | .gacall x b k h argsok => do
     let v ← flush v x
     let okpc := match x with
       | .w => v.m.s.wpc == .resolve b k
       | .s i => v.m.s.spc i == .wResolve b k
     if !okpc then .error s!"getaddrinfo for item {b}.{k} is not the next resolution (lost, duplicated or foreign request)"
-    else if v.m.s.argOf b k ≠ h then .error s!"getaddrinfo for item {b}.{k} called with other arguments"
+    else if v.m.s.argOf b k ≠ h ∨ argsok ≠ 1 then .error s!"getaddrinfo for item {b}.{k} called with other arguments (name/service/hints) than the request's"
     else if k ≥ v.m.s.nOf b then .error s!"item index {k} beyond the batch"
     else .ok v
   | .garet x b k rc =>
@@ -247,16 +250,16 @@ def feed {ga : Nat → Int} (v : V ga) : Ev → R ga
     let v ← doNotify v x b .thread
     let v ← snapOk v b snap
     .ok v
-  | .kill x target _ => do
+  | .kill x target _ _ => do
     let b := match x with
       | .w => (match v.m.s.wpc with | .resolve b _ => b | .free b => b | _ => 0)
       | .s i => (match v.m.s.spc i with | .wResolve b _ => b | _ => 0)
     let v ← doNotify v x b .signal
-    if b / 100 ≠ target then .error s!"signal for batch {b} sent to thread {target}" else .ok v
+    if b / bidMul ≠ target then .error s!"signal for batch {b} sent to thread {target}" else .ok v
   | .sigrecv i b snap =>
     if v.m.s.notified b ≠ 1 then .error s!"signal for batch {b} received without a notification step"
     else if v.sigrecvd.contains b then .error s!"signal for batch {b} received twice"
-    else if b / 100 ≠ i then .error "signal handler ran on a foreign thread"
+    else if b / bidMul ≠ i then .error "signal handler ran on a foreign thread"
     else do
       let v ← snapOk v b snap
       .ok { v with sigrecvd := b :: v.sigrecvd }
@@ -292,7 +295,7 @@ def feed {ga : Nat → Int} (v : V ga) : Ev → R ga
   | .fin needSig => do
     let v ← flush v .w
     let s := v.m.s
-    if !(v.begun.all fun b => s.spc (b / 100) == .idle) then .error "a submitter is still inside getaddrinfo_a"
+    if !(v.begun.all fun b => s.spc (b / bidMul) == .idle) then .error "a submitter is still inside getaddrinfo_a"
     else if s.queue ≠ [] then .error "requests left in the queue"
     else if s.wpc.owns ≠ none then .error "resolver still holds a request at the end"
     else if !(v.begun.all fun b => s.loc b == .finished) then .error "a batch did not finish"
@@ -309,7 +312,7 @@ def feed {ga : Nat → Int} (v : V ga) : Ev → R ga
 /-- the request the resolver works on next: its first getaddrinfo after the unlock -/
 def nextWorkerBatch : List Ev → Option Nat
   | [] => none
-  | .gacall .w b _ _ :: _ => some b
+  | .gacall .w b _ _ _ :: _ => some b
   | .unlockQ .w _ :: _ => none
   | _ :: rest => nextWorkerBatch rest
 
